@@ -90,6 +90,8 @@ template< typename Peek > struct K< pi::any< Peek > > { static void args( std::o
 template<> struct K< pi::eof > { static void args( std::ostream& o ) { o << "\"kind\":\"eof\""; } };
 template<> struct K< pi::success > { static void args( std::ostream& o ) { o << "\"kind\":\"success\""; } };
 template<> struct K< pi::failure > { static void args( std::ostream& o ) { o << "\"kind\":\"failure\""; } };
+template<> struct K< pi::eol > { static void args( std::ostream& o ) { o << "\"kind\":\"eol\""; } };
+template<> struct K< pi::eolf > { static void args( std::ostream& o ) { o << "\"kind\":\"eolf\""; } };
 %(extra_kinds)s
 
 static std::set< std::string > seen;
